@@ -381,3 +381,10 @@ Definition has_recv (p : list op) : bool :=
   existsb (fun o => match o with ORecv => true | _ => false end) p.
 Definition multi_receiver (progs : list (list op)) : bool :=
   1 <? length (filter has_recv progs).
+
+(* the witness of the lost wake-up (see MpmcProofs.mpmc_lost_wakeup_refuted_lemma): threads 0,1
+   receive, threads 2,3 send; both receivers reach the select on p.empty before either send
+   signals, the two signals coalesce into one token *)
+Definition lw_progs : list (list op) := [[ORecv]; [ORecv]; [OSend 7%N]; [OSend 8%N]].
+Definition lw_sched : list nat :=
+  repeat 0 5 ++ repeat 1 5 ++ repeat 2 10 ++ repeat 3 10 ++ repeat 0 10.
